@@ -277,6 +277,7 @@ type Env struct {
 	Steps  int
 	// Counters for the non-triviality rule
 	ValueDependent int
+	MixedNumeric   int // assignments whose operand type differs from the target's numeric type
 	Branches       int
 	// EmptySubjectMatch: a regular expression matched the empty (set) string
 	EmptySubjectMatch bool
@@ -510,6 +511,43 @@ func (env *Env) assign(s *Stmt) {
 	case TIP:
 		env.Vars[s.Name] = Val{T: TIP, IP: canonIP(r.IPorS()), NotSet: false}
 	case TRTime:
+		if r.T == TInt || r.T == TFloat {
+			// RTIME op= INTEGER / FLOAT variable: seconds for += and -=, a factor for *= and /=.
+			// Only exactly representable results are decided (whole factors, exact quotients).
+			n := r.I
+			if r.T == TFloat {
+				if r.F != math.Trunc(r.F) || math.Abs(r.F) >= 1<<31 {
+					env.abort("RTIME op= fractional FLOAT: truncation of operand or result unspecified")
+					return
+				}
+				n = int64(r.F)
+			}
+			if n > 1<<31 || n < -(1<<31) || l.D > 1<<40 || l.D < -(1<<40) {
+				env.abort("RTIME arithmetic beyond range")
+				return
+			}
+			switch s.Op {
+			case "+=":
+				l.D += n * 1000
+			case "-=":
+				l.D -= n * 1000
+			case "*=":
+				l.D *= n
+			case "/=":
+				if n == 0 || l.D%n != 0 {
+					env.abort("RTIME /= : zero or inexact quotient")
+					return
+				}
+				l.D /= n
+			default:
+				env.abort("rtime op " + s.Op + " with numeric operand")
+				return
+			}
+			env.ValueDependent++
+			env.MixedNumeric++
+			env.Vars[s.Name] = l
+			return
+		}
 		switch s.Op {
 		case "=":
 			l.D = r.D
@@ -551,6 +589,54 @@ func (env *Env) assign(s *Stmt) {
 		}
 		env.Vars[s.Name] = l
 	case TInt:
+		if r.T == TFloat {
+			// INTEGER op= FLOAT (variable). The Fastly documentation says a FLOAT converted to
+			// INTEGER is truncated; it does not say whether a compound operator truncates the
+			// operand or the result. Both readings are computed; where they differ the
+			// expectation is unspecified.
+			f := r.F
+			if math.IsNaN(f) || math.Abs(f) >= 1<<53 || l.I >= 1<<53 || l.I <= -(1<<53) {
+				env.abort("mixed INTEGER/FLOAT arithmetic beyond exact range")
+				return
+			}
+			tf := int64(f) // truncates toward zero
+			var a, b int64
+			switch s.Op {
+			case "=":
+				a, b = tf, tf
+			case "+=":
+				a, b = l.I+tf, int64(float64(l.I)+f)
+			case "-=":
+				a, b = l.I-tf, int64(float64(l.I)-f)
+			case "*=":
+				p := float64(l.I) * f
+				if math.Abs(p) >= 1<<53 {
+					env.abort("mixed INTEGER/FLOAT arithmetic beyond exact range")
+					return
+				}
+				a, b = l.I*tf, int64(p)
+			case "/=":
+				if tf == 0 {
+					env.abort("INTEGER /= FLOAT with |divisor| < 1 is unspecified")
+					return
+				}
+				a, b = l.I/tf, int64(float64(l.I)/f)
+			default:
+				env.abort("integer op " + s.Op + " with FLOAT operand")
+				return
+			}
+			if a != b {
+				env.abort("INTEGER " + s.Op + " FLOAT: truncating the operand or the result differ (unspecified)")
+				return
+			}
+			l.I = a
+			if s.Op != "=" {
+				env.ValueDependent++
+			}
+			env.MixedNumeric++
+			env.Vars[s.Name] = l
+			return
+		}
 		ri := r.I
 		switch s.Op {
 		case "=":
